@@ -120,7 +120,8 @@ func ordHolds(op token.Token, o int) bool {
 type tableRow struct {
 	name   string
 	atom   atomFn
-	expect string // expected outcome label
+	atomP  func(p *px.Path, s *px.Sym) (bool, bool) // alternative to atom when the path is needed
+	expect string                                     // expected outcome label
 }
 
 // checkTable: for each row exactly the feasible paths' outcomes must all equal
@@ -137,12 +138,17 @@ func (c *Ctx) checkTable(rule, construct, text string, pos string, ps []*px.Path
 			if p.Exit == px.ExitCut {
 				continue
 			}
-			ok, _ := feasibleUnder(p, r.atom)
+			at := r.atom
+			if r.atomP != nil {
+				pp, ap := p, r.atomP
+				at = func(s *px.Sym) (bool, bool) { return ap(pp, s) }
+			}
+			ok, _ := feasibleUnder(p, at)
 			if !ok {
 				continue
 			}
 			n++
-			outs[outcome(p, r.atom)]++
+			outs[outcome(p, at)]++
 		}
 		if n == 0 {
 			bad = append(bad, fmt.Sprintf("row %s: no feasible path", r.name))
